@@ -633,7 +633,7 @@ def evaluate(case, mod=None):
     if own:
         mod = L.load_module(case["src"])
     old = signal.signal(signal.SIGALRM, _on_alarm)
-    signal.setitimer(signal.ITIMER_REAL, CASE_TIMEOUT_S)
+    signal.setitimer(signal.ITIMER_REAL, CASE_TIMEOUT_S, 0.5)      # re-fires: a CaseTimeout raised at the recursion limit can get lost
     try:
         try:
             if case["entry"]["dir"] == "ser":
